@@ -13,6 +13,4 @@ CONSTANTS
   FreshModule = FALSE
 VIEW View
 INVARIANT SibDigest
-INVARIANT LimitRespected
-INVARIANT OwnLineKept
 CHECK_DEADLOCK FALSE
